@@ -13,7 +13,9 @@ import (
 	"fmt"
 	"io"
 	"math/rand"
+	"runtime"
 	"sort"
+	"strconv"
 	"strings"
 	"sync"
 	"time"
@@ -35,6 +37,9 @@ type detReader struct {
 	mode    int // 0 per-party seeded streams, 1 constant bytes, 2 repeating block
 	// alias: stream label -> name used to derive the stream key (two labels with the same alias produce equal bytes)
 	alias map[string]string
+	// mux: this reader is not installed as crypto/rand.Reader itself; it serves the goroutines registered for it with
+	// the process-wide muxReader (sims that run in parallel, each with its own deterministic streams)
+	mux bool
 }
 
 type ctrStream struct {
@@ -93,6 +98,86 @@ func installDetReader(seed int64, mode int) *detReader {
 	return d
 }
 func restoreRandReader() { crand.Reader = origRandReader }
+
+// ---------------------------------------------------------------------------------------------
+// muxReader: a crypto/rand.Reader for sims that run in parallel. Every goroutine that executes library code of a sim
+// (the goroutine driving the sim, and the goroutine of every API call, see Sim.call) registers the sim's detReader;
+// reads from other goroutines (there are none when the sessions are given a nil pool) fall through to the OS reader.
+
+type muxReader struct {
+	mu sync.Mutex
+	by map[int64]*detReader
+}
+
+var theMux = &muxReader{by: map[int64]*detReader{}}
+
+func goid() int64 {
+	var buf [64]byte
+	n := runtime.Stack(buf[:], false)
+	f := bytes.Fields(buf[:n])
+	if len(f) < 2 {
+		return -1
+	}
+	id, err := strconv.ParseInt(string(f[1]), 10, 64)
+	if err != nil {
+		return -1
+	}
+	return id
+}
+
+func (m *muxReader) current() *detReader {
+	id := goid()
+	m.mu.Lock()
+	defer m.mu.Unlock()
+	return m.by[id]
+}
+
+func (m *muxReader) Read(p []byte) (int, error) {
+	if d := m.current(); d != nil {
+		return d.Read(p)
+	}
+	return origRandReader.Read(p)
+}
+
+// installMux makes the muxReader the process's crypto/rand.Reader (call from the main goroutine, before the parallel phase).
+func installMux() { crand.Reader = theMux }
+
+// newMuxDetReader creates a detReader to be used under the muxReader.
+func newMuxDetReader(seed int64) *detReader {
+	return &detReader{seed: seed, streams: map[string]*ctrStream{}, alias: map[string]string{}, mux: true}
+}
+
+// muxEnter registers d for the calling goroutine; the returned function undoes it.
+func muxEnter(d *detReader) func() {
+	if d == nil || !d.mux {
+		return func() {}
+	}
+	id := goid()
+	theMux.mu.Lock()
+	prev := theMux.by[id]
+	theMux.by[id] = d
+	theMux.mu.Unlock()
+	return func() {
+		theMux.mu.Lock()
+		if prev == nil {
+			delete(theMux.by, id)
+		} else {
+			theMux.by[id] = prev
+		}
+		theMux.mu.Unlock()
+	}
+}
+
+// currentDet: the detReader serving the calling goroutine (nil if randomness comes from the OS)
+func currentDet() *detReader {
+	switch r := crand.Reader.(type) {
+	case *detReader:
+		return r
+	case *muxReader:
+		return r.current()
+	}
+	return nil
+}
 func crandSet(d *detReader)  { crand.Reader = d }
 func (d *detReader) setParty(p string) {
 	d.mu.Lock()
@@ -321,6 +406,7 @@ func (s *Sim) collect(n *Node) []*protocol.Message {
 func (s *Sim) call(n *Node, f func()) (msgs []*protocol.Message, pan string, hung bool) {
 	done := make(chan string, 1)
 	go func() {
+		defer muxEnter(s.det)()
 		defer func() {
 			if r := recover(); r != nil {
 				done <- "PANIC: " + fmt.Sprint(r)
